@@ -42,6 +42,10 @@ record header is recognised (jaspar/parse.rs and jaspar16/parse.rs, fn header):
     (IoNom.pres) has no Incomplete result because nom's `complete` parsers never return it; C15io.io_parsers_are_complete
     re-checks that premise (no streaming parser, or the arm no longer panics).
 
+  * lightmotif/src/pwm/mod.rs `CountMatrix::new`: `gen_count_matrix_new_can_fail` (its body has an `Err(`, a `?` or a panic
+    macro); the JASPAR record parsers call it through map_res and the model (IoJaspar.j_record / j16_record) takes it as
+    never failing; C15io.count_matrix_new_is_total.
+
 coq/io/C15io.v re-checks (theorem reader_skeleton_is_modelled) that these are the sequences and
 literals the model IoJaspar.j_next_g / IoErr.j_next_e_g / IoErr.u_next_e was written for
 (IoPoll.model_*).  Harmless reformatting (blanks, line breaks, comments, trailing commas, optional
@@ -230,6 +234,20 @@ def parse_error_incomplete(src):
     return bool(re.match(r"\s*\{?\s*(unreachable|panic|unimplemented|todo)\s*!", m.group(1)))
 
 
+def parse_count_matrix_new(src):
+    """lightmotif/src/pwm/mod.rs, CountMatrix::new: can it return Err?  (map_res(matrix, CountMatrix::new) of the JASPAR
+    parsers is modelled as never failing: the row-sum test is commented out in the pinned source.)"""
+    m = re.search(r"\bimpl\s*<\s*A\s*:\s*Alphabet\s*>\s*CountMatrix\s*<\s*A\s*>\s*\{", src)
+    if not m:
+        raise ParseError("pwm/mod.rs: cannot find `impl<A: Alphabet> CountMatrix<A>`")
+    blk, _ = E.block_after(src, m.end() - 1)
+    body = E.find_fn(blk, "new", "pwm/mod.rs impl CountMatrix")
+    if body is None:
+        raise ParseError("pwm/mod.rs: CountMatrix::new has no body")
+    nb = E.norm(body)
+    return bool(re.search(r"\bErr\(|\?;|\?\)|panic!|unimplemented!|todo!|unreachable!", nb))
+
+
 def _nats(l):
     return "[" + "; ".join(str(x) for x in l) + "]"
 
@@ -265,6 +283,9 @@ def emit(j, j16, u, hj, hj16, nomuse):
     o.append("Definition gen_io_parse_uses_streaming : bool := %s." % ("true" if nomuse[0] else "false"))
     o.append("Definition gen_io_parse_foreign_nom_paths : nat := %d." % nomuse[1])
     o.append("Definition gen_io_error_incomplete_is_panic : bool := %s." % ("true" if nomuse[2] else "false"))
+    o.append("(* lightmotif/src/pwm/mod.rs CountMatrix::new: does its body contain an Err(..) / `?` / panic macro (the JASPAR record")
+    o.append("   parsers apply it through map_res; the model takes it as never failing) *)")
+    o.append("Definition gen_count_matrix_new_can_fail : bool := %s." % ("true" if nomuse[3] else "false"))
     return "\n".join(o) + "\n"
 
 
@@ -283,11 +304,12 @@ def translate():
             streaming = streaming or st
             foreign += ["%s/parse.rs:%s" % (f, x) for x in fo]
         inc_panic = parse_error_incomplete(io_abc._read("lightmotif-io/src/error.rs"))
+        cm_fail = parse_count_matrix_new(io_abc._read("lightmotif/src/pwm/mod.rs"))
     except (ParseError, OSError) as e:
         return dict(ok=False, errors=["cannot parse source: %s" % e], notes=notes)
     except Exception as e:  # never crash: an unexpected shape is a broken obligation
         return dict(ok=False, errors=["cannot parse source: %r" % (e,)], notes=notes)
-    text = emit(j, j16, u, hj, hj16, (streaming, len(foreign), inc_panic))
+    text = emit(j, j16, u, hj, hj16, (streaming, len(foreign), inc_panic, cm_fail))
     changed = False
     try:
         old = open(out).read()
@@ -300,10 +322,10 @@ def translate():
         changed = True
     notes.append("translator: GenIoReader.v %s (jaspar next %s delim %d; jaspar16 next %s delim %d; uniprobe next %s; "
                  "header tags %r/%r until %r/%r; parse.rs streaming/Incomplete mentioned: %s, foreign nom paths: %s, "
-                 "error.rs Incomplete arm is a panic: %s)" % (
+                 "error.rs Incomplete arm is a panic: %s; CountMatrix::new can fail: %s)" % (
                      "rewritten" if changed else "unchanged", j[0], j[1], j16[0], j16[1], u,
                      "".join(map(chr, hj[0])), "".join(map(chr, hj16[0])),
-                     "".join(map(chr, hj[1])), "".join(map(chr, hj16[1])), streaming, foreign or "none", inc_panic))
+                     "".join(map(chr, hj[1])), "".join(map(chr, hj16[1])), streaming, foreign or "none", inc_panic, cm_fail))
     return dict(ok=True, errors=[], notes=notes)
 
 
